@@ -111,6 +111,46 @@ menu:
   page_size: 5
 """
 
+# the same dictionary (and user dictionary) under other translator options: the plain TableTranslation of exact matches
+# (enable_completion: false)
+TABLE_VARIANTS = {
+    "c10_table": ("", "table"),
+    "c10_table_nc": ("  enable_completion: false\n", "table 0 1"),
+    # the unity table encoder: a commit of several elements is stored as one phrase under the code the dictionary's rules
+    # derive for it (offered later as a constructed user phrase, stored as a plain one once it is committed itself); the
+    # tail of the commit history is encoded too, phrases of at most three characters
+    "c10_table_enc": ("  enable_encoder: true\n  encode_commit_history: true\n  max_phrase_length: 3\n", "table 1 1 enc 1 3"),
+    "c10_table_encnc": ("  enable_encoder: true\n  encode_commit_history: false\n  enable_completion: false\n", "table 0 1 enc 0 5"),
+}
+ENC_PREFIX = "7f656e631f"        # kEncodedPrefix "\x7f" "enc" "\x1f" in hex, as the first spelling of a db key starts
+ENCODER_RULES = """encoder:
+  rules:
+    - length_equal: 2
+      formula: "AaBa"
+    - length_equal: 3
+      formula: "AaBaCa"
+    - length_in_range: [4, 6]
+      formula: "AaBaCaZa"
+"""
+# (a variant with `max_homographs: 3` is modelled — `tableSentenceListH`, `predict table 1 3` — but not run: with more than one
+# homograph per edge MakeSentence copies the DictEntryIterator of a prefix, the copy shares the chunk cursors with the original,
+# and the prefix phrases are then read past the end of their chunk: unrelated to learning, recorded in
+# corpus/C10/side_observations/max_homographs_shared_cursor.json)
+
+
+def table_schema(sid):
+    y = TABLE_SCHEMA.replace("schema_id: c10_table", "schema_id: " + sid).replace("name: c10_table", "name: " + sid).replace(
+        "  enable_charset_filter: false\n", "  enable_charset_filter: false\n" + TABLE_VARIANTS[sid][0])
+    if sid == "c10_table_enc":
+        # a comma commits the composition followed by '，' (a commit whose history ends with a punctuation record)
+        y = y.replace("    - speller\n    - selector\n", "    - speller\n    - punctuator\n    - selector\n").replace(
+            "    - abc_segmentor\n", "    - abc_segmentor\n    - punct_segmentor\n").replace(
+            "    - table_translator\n", "    - punct_translator\n    - table_translator\n")
+        assert y.count("punct") == 3
+        y += "punctuator:\n  half_shape:\n    ',': { commit: '，' }\n  full_shape:\n    ',': { commit: '，' }\n"
+    return y
+
+
 SYLS = [c + v for c in "bcd" for v in "aei"]
 
 
@@ -153,11 +193,104 @@ def gen_table_dict(rng):
     for code in sorted(codes):
         for _ in range(rng.choice([1, 1, 2, 3])):
             rows.append((pool.pop(), [code], weights.pop()))
+    # a few characters under a second code (the encoder then derives two codes for a phrase that contains one)
+    for _ in range(rng.choice([0, 1, 2])):
+        t, c, _ = rng.choice(rows)
+        c2 = rng.choice(sorted(codes))
+        if [c2] != c and not any(r[0] == t and r[1] == [c2] for r in rows):
+            rows.append((t, [c2], weights.pop()))
     return rows
 
 
-def dict_yaml(name, rows):
-    return ("---\nname: %s\nversion: '1'\nsort: by_weight\nuse_preset_vocabulary: false\n...\n\n" % name
+def enc_history(rng, rows):
+    """directed at the encoder: phrases assembled from partial selections or taken as a composed sentence (stored under the
+    encoded code), looked up by that code, committed from there (stored as a plain phrase), forgotten; runs of single-word
+    commits (the commit history is encoded up to max_phrase_length)"""
+    codes = sorted({c[0] for _, c, _ in rows})
+    ops = []
+    for _ in range(rng.choice([3, 4, 5])):
+        r = rng.random()
+        if r < 0.6:
+            parts = [rng.choice(codes) for _ in range(rng.choice([2, 2, 3]))]
+            x = "".join(parts)
+            enc = "".join(p[0] for p in parts)
+            ops.append("type " + x)
+            if rng.random() < 0.6:
+                for _ in range(len(parts)):
+                    ops.append("select_part %d" % rng.choice([0, 0, 1]))
+            ops += ["select_whole %d" % rng.choice([0, 0, 1]), "commit", "clear"]
+            ops += ["type " + enc, "clear"]
+            r2 = rng.random()
+            if r2 < 0.5:
+                ops += ["type " + enc, "select_user %d" % rng.choice([0, 0, 1]), "clear", "type " + enc, "clear"]
+            elif r2 < 0.75:
+                ops += ["type " + enc, "delete_user %d" % rng.choice([0, 0, 1]), "clear", "type " + enc, "clear"]
+            if rng.random() < 0.4:
+                ops += ["type " + x, "select_whole 0", "commit", "clear", "type " + enc, "clear"]
+        else:
+            run = [rng.choice(codes) for _ in range(rng.choice([2, 3, 4, 5]))]
+            for cd in run:
+                if rng.random() < 0.25:
+                    ops += ["type " + cd, "key 44 0", "clear"]       # the comma commits the first candidate and '，'
+                    continue
+                ops += ["type " + cd, "select_whole %d" % rng.choice([0, 0, 1, 2]), "clear"]
+                if rng.random() < 0.15:
+                    ops += ["key %d 0" % rng.choice([ord("x"), BACKSPACE, 0xff0d])]
+            for k in (2, 3, 4):
+                if len(run) >= k:
+                    ops += ["type " + "".join(cd[0] for cd in run[-k:]), "clear"]
+            if rng.random() < 0.5:
+                ops += ["type " + "".join(cd[0] for cd in run[-2:]), "select_user 0", "clear", "type " + "".join(cd[0] for cd in run[-2:]), "clear"]
+        if rng.random() < 0.2:
+            ops.append(rng.choice(["restart_session", "restart_service"]))
+    return ops
+
+
+def gen_table_dict_dense(rng):
+    """a table whose codes crowd under one first letter: more than kInitialSearchLimit (10) learned phrases share a prefix, so
+    the lazy translation has to fetch the predictive user phrases in several rounds (limit, resume key)"""
+    pool = CJK[:]
+    rng.shuffle(pool)
+    weights = list(range(1, 400))
+    rng.shuffle(weights)
+    first = rng.choice("abcd")
+    under = [first + x for x in "abcd"] + [first + x + y for x in "abcd" for y in "abcd"]
+    codes = set(rng.sample(under, rng.choice([13, 15, 17]))) | {first}
+    for _ in range(3):
+        codes.add("".join(rng.choice("abcd") for _ in range(rng.choice([1, 2]))))
+    rows = []
+    for code in sorted(codes):
+        for _ in range(rng.choice([1, 1, 1, 2])):
+            rows.append((pool.pop(), [code], weights.pop()))
+    return rows
+
+
+def dense_history(rng, rows):
+    """learn every code under the crowded letter, then look at the menus of its prefixes (exact user phrases, table entries,
+    predictive user phrases in key order, table completions), forget and commit some from there, restart"""
+    codes = sorted({c[0] for _, c, _ in rows})
+    first = max("abcd", key=lambda ch: sum(1 for c in codes if c[0] == ch))
+    mine = [c for c in codes if c[0] == first and len(c) > 1]
+    rng.shuffle(mine)
+    ops = []
+    for i, code in enumerate(mine):
+        ops += ["type " + code, "select_whole %d" % rng.choice([0, 0, 0, 1]), "clear"]
+        if i in (8, 9, 10, 11):                       # around the first fetch limit
+            ops += ["type " + first, "clear"]
+    two = first + rng.choice("abcd")
+    ops += ["type " + first, "clear", "type " + two, "clear"]
+    ops += ["type " + first, "delete %d" % rng.randrange(0, 14), "clear", "type " + first, "clear"]
+    ops += ["type " + first, "select %d" % rng.randrange(0, 16), "clear", "type " + first, "clear"]
+    ops += ["type " + first, "delete_user %d" % rng.randrange(0, 3), "clear", "type " + two, "select %d" % rng.randrange(0, 6), "clear"]
+    ops += ["restart_session", "type " + first, "clear", "type " + two, "clear"]
+    # sentence mode over learned prefixes: two codes in a row have no entry of their own
+    a, b = rng.choice(mine), rng.choice(mine)
+    ops += ["type " + a + b, "select_part 0", "select_whole 0", "clear", "type " + a + b, "select_whole 0", "clear", "type " + a + b, "clear"]
+    return ops
+
+
+def dict_yaml(name, rows, encoder=False):
+    return ("---\nname: %s\nversion: '1'\nsort: by_weight\nuse_preset_vocabulary: false\n%s...\n\n" % (name, ENCODER_RULES if encoder else "")
             + "".join("%s\t%s\t%d\n" % (t, " ".join(c), w) for t, c, w in rows))
 
 
@@ -170,9 +303,10 @@ def make_workspace(ws, script_rows=None, table_rows=None, luna=False):
         open(os.path.join(ws, "c10_script.schema.yaml"), "w").write(SCRIPT_SCHEMA)
         open(os.path.join(ws, "c10_script.dict.yaml"), "w").write(dict_yaml("c10_script", script_rows))
     if table_rows is not None:
-        ids.append("c10_table")
-        open(os.path.join(ws, "c10_table.schema.yaml"), "w").write(TABLE_SCHEMA)
-        open(os.path.join(ws, "c10_table.dict.yaml"), "w").write(dict_yaml("c10_table", table_rows))
+        for sid in TABLE_VARIANTS:
+            ids.append(sid)
+            open(os.path.join(ws, sid + ".schema.yaml"), "w").write(table_schema(sid))
+        open(os.path.join(ws, "c10_table.dict.yaml"), "w").write(dict_yaml("c10_table", table_rows, encoder=True))
     if luna:
         # the stock workspace, unchanged (default.yaml lists luna_pinyin first)
         src = os.path.join(vlib.REPO, "data", "minimal")
@@ -457,6 +591,19 @@ class Eval:
                 r_mem, m_mem = [blank(x) for x in r_mem], [blank(x) for x in m_mem]
             if r_mem != m_mem:
                 self.diffs.append((i, "grouping", "Memorize calls differ: impl %s model %s" % (r_mem[:3], m_mem[:3])))
+            # the EncodePhrase calls of a table translator with encoder: which phrases, with which value, in which order
+            r_enc = [" ".join(l.split(" ")[2:4]) for l in il if l.startswith("E encode_phrase ")]
+            m_enc = [l[len("M encode_phrase "):] for l in ml if l.startswith("M encode_phrase ")]
+            if r_enc != m_enc:
+                self.diffs.append((i, "encode-calls", "EncodePhrase calls differ: impl %s model %s" % (
+                    ["%s/%s" % (show(x.split(" ")[0]), x.split(" ")[1]) for x in r_enc[:6]],
+                    ["%s/%s" % (show(x.split(" ")[0]), x.split(" ")[1]) for x in m_enc[:6]])))
+            self.stats["encode_calls"] = self.stats.get("encode_calls", 0) + len(r_enc)
+            for l in il:
+                if l.startswith("E history "):
+                    hw = l.split(" ")
+                    if len(hw) >= 5 and hw[-2] == "punct":
+                        self.stats["commits_after_punctuation"] = self.stats.get("commits_after_punctuation", 0) + 1
             ok, why = db_equal(idb, mdb)
             self.stats["db_compared"] += 1
             if not ok:
@@ -483,6 +630,8 @@ class Eval:
                     self.stats["commits"] += 1
                     self.stats["commit_entries"] += len(m_mem)
                     segs = self.parse_segs(w[4:], int(w[3]))
+                    if any(sg[3].startswith(ENC_PREFIX) for sg in segs):
+                        self.stats["constructed_committed"] = self.stats.get("constructed_committed", 0) + 1
                     if len([s for s in segs if s[1] in "ps"]) > 1:
                         self.stats["multi_seg_commits"] += 1
                     rank_watch, asm_watch = self.watch(segs, prev_cands, m_mem, rank_watch, asm_watch)
@@ -579,8 +728,12 @@ class Eval:
 
     def check_commit(self, i, pend, d1):
         d0 = pend["d0"]
-        committed = {(c, t) for c, t, n in pend["updates"] if int(n) > 0}
-        touched = {(c, t) for c, t, n in pend["updates"] if int(n) == 0}
+        # records under the encoder's prefix are auxiliary (constructed phrases: rewritten from a fresh value by every
+        # encoding, never counted up): the clauses speak about the entries committed, which are stored under plain keys
+        aux = lambda k: k[0].startswith(ENC_PREFIX)
+        committed = {(c, t) for c, t, n in pend["updates"] if int(n) > 0 and not aux((c, t))}
+        touched = {(c, t) for c, t, n in pend["updates"] if int(n) == 0 and not aux((c, t))}
+        self.stats["constructed_written"] = self.stats.get("constructed_written", 0) + sum(1 for c, t, n in pend["updates"] if aux((c, t)))
         # every commit entry (script) / picked element (table) that carries the key raises it by one; the first raise
         # revives a deleted record: c -> |c| + m
         for k in sorted(committed):
@@ -602,7 +755,7 @@ class Eval:
                     k[0], show(k[1]), c0, c1, abs(c0) + m, m,
                     "; the same key is also touched with commits 0 as an element of a commit entry of this commit" if k in touched else "")))
         for k in sorted(set(d0["rows"]) | set(d1["rows"])):
-            if k in committed:
+            if k in committed or aux(k):
                 continue
             self.stats["frame_checks"] += 1
             a, b = d0["rows"].get(k), d1["rows"].get(k)
@@ -616,6 +769,8 @@ class Eval:
 
     def check_delete(self, i, key, d0, d1):
         self.stats["deletes"] += 1
+        if key[0].startswith(ENC_PREFIX):
+            self.stats["constructed_deleted"] = self.stats.get("constructed_deleted", 0) + 1
         c0 = d0["rows"].get(key, (0, 0.0, 0))[0]
         c1 = d1["rows"].get(key, (None,))[0]
         self.nontrivial.add(("delete", key, c0))
@@ -636,6 +791,8 @@ class Eval:
             self.stats["lists_with_user"] += 1
         for text, typ, start, end, code, origin in user:
             self.stats["hidden_checks"] += 1
+            if code.startswith(ENC_PREFIX):
+                self.stats["constructed_offered"] = self.stats.get("constructed_offered", 0) + 1
             rec = db["rows"].get((code, text))
             if rec is None:
                 self.viols.append((i, "lookup:phantom", "candidate %s/%s of type %s has no record in the user db" % (code, show(text), typ)))
@@ -785,6 +942,7 @@ def run(c):
     total, nontrivial, samples = {}, set(), []
     crashes = 0
     kinds = [("script", "c10_script", "script", "script 2"), ("table", "c10_table", "table", "table")]
+    n_var = 4 if quick else 10        # histories per dictionary on each table-translator variant
     batches = []
     # corpus first
     for name, case in corpus_cases():
@@ -795,20 +953,36 @@ def run(c):
             rows = gen_script_dict(c.rng) if kindname == "script" else gen_table_dict(c.rng)
             hs = [gen_history(c.rng, kindname, n_rounds, rows) for _ in range(n_hist)]
             batches.append((kindname, schema, style, predict, rows, hs, "gen%d" % d))
+            if kindname == "table":
+                for sid, (_, pred) in TABLE_VARIANTS.items():
+                    if sid != schema:
+                        hs2 = [gen_history(c.rng, kindname, n_rounds, rows) for _ in range(n_var)]
+                        if "enc" in sid:
+                            hs2 += [enc_history(c.rng, rows) for _ in range(n_var)]
+                        batches.append((kindname, sid, style, pred, rows, hs2, "gen%d:%s" % (d, sid)))
+    for d in range(1 if quick else 6):
+        rows = gen_table_dict_dense(c.rng)
+        for sid, (_, pred) in TABLE_VARIANTS.items():
+            batches.append(("table", sid, "table", pred, rows, [dense_history(c.rng, rows) for _ in range(2 if quick else 4)],
+                            "dense%d:%s" % (d, sid)))
     luna_hs = luna_long_histories(c.rng, 4 if quick else 8) + [gen_history(c.rng, "luna", luna_rounds, []) for _ in range(luna_hist)]
     for k in range(0, len(luna_hs), 8):
         batches.append(("luna", "luna_pinyin", "script", "none", [], luna_hs[k:k + 8], "luna%d" % k))
     ws_luna = None
     sample_line = None
+    ws_cache = {}            # one deployed workspace per generated dictionary (the table variants share it)
     for bi, (kindname, schema, style, predict, rows, hs, tag) in enumerate(batches):
         if kindname == "luna":
             if ws_luna is None:
                 ws_luna = make_workspace(os.path.join(c.work, "ws_luna"), luna=True)
             ws = ws_luna
+        elif id(rows) in ws_cache and not tag.startswith("corpus:"):
+            ws = ws_cache[id(rows)]
         else:
             ws = make_workspace(os.path.join(c.work, "ws_%d" % bi),
                                 script_rows=rows if kindname == "script" else None,
                                 table_rows=rows if kindname == "table" else None)
+            ws_cache[id(rows)] = ws
         if sample_line is None and kindname != "luna":
             hs = [hs[0] + ["sample %d" % (20000 if quick else 400000)]] + hs[1:]
         rc, impl, model, evs = run_batch(c, exe, ws, schema, style, predict, rows, hs, "b%d" % bi)
@@ -833,6 +1007,7 @@ def run(c):
                               "dict": [[t, cd, w] for t, cd, w in rows], "ops": small, "log": "\n".join(impl2)[-2500:]})
                     break
             continue
+        total["histories:" + schema] = total.get("histories:" + schema, 0) + len(hs)
         for h, ev in zip(hs, evs):
             add_stats(total, ev)
             nontrivial |= {(kindname,) + x for x in ev.nontrivial}
